@@ -221,7 +221,7 @@ func (r *filteringReader) Read(p []byte) (int, error) {
 			}
 			offset++
 		}
-		if offset > 0 {
+		if offset > 0 || err != nil {
 			return offset, err
 		}
 		// Previous buffer entirely whitespace, read again
